@@ -54,6 +54,9 @@ type Frame struct {
 	nOblig    map[string]int
 	preVals   map[int]map[string]*SVal // loop header -> variable name -> value on loop entry
 	curLoop   int
+	protos    []*protoInst
+	atomicOrd map[*ssa.CallCommon]int
+	curInstr  ssa.Instruction
 }
 
 type loopInfo struct {
